@@ -1,5 +1,9 @@
 import PyxisVerif.Props.C03
+import PyxisVerif.Props.CaseLift2
 #print axioms PyxisVerif.C03.accepts_iff_realisable
 #print axioms PyxisVerif.C03.rejects_with_error
 #print axioms PyxisVerif.C03.accepted_size_align
 #print axioms PyxisVerif.C03.realisableB_iff
+#print axioms PyxisVerif.C03.case_verdict
+#print axioms PyxisVerif.C03.case_accepts_iff_realisable
+#print axioms PyxisVerif.C03.case_accepted_size_align
